@@ -272,12 +272,14 @@ memcpy_ring_buffer_to_input_messages (HttpPriv *priv,
   for (i = 0; priv->recv_buf_fill > 0 && i < n_messages; i++) {
     NiceInputMessage *message = &messages[i];
 
+    message->length = 0;
+
     for (j = 0;
          priv->recv_buf_fill > 0 &&
          ((message->n_buffers >= 0 && j < (guint) message->n_buffers) ||
           (message->n_buffers < 0 && message->buffers[j].buffer != NULL));
          j++) {
-      message->buffers[j].size =
+      message->length +=
           memcpy_ring_buffer_to_buffer (priv,
               message->buffers[j].buffer, message->buffers[j].size);
     }
